@@ -2,6 +2,7 @@
 
 E3 crash-point enumeration, two-phase: every position before a mutating system call of trash-restore / trash-empty /
 trash-rm runs; then the command (and trash-empty) is re-run from every crash state."""
+import os
 import sys
 
 from .. import cell, scen, world
@@ -15,9 +16,9 @@ LEVEL_TEXT = ('in every crash state every payload still under files/ must still 
               'its destination; re-running a killed trash-empty / trash-rm from the crash state must reach the final state of the uncrashed run, and trash-empty after a killed '
               'trash-restore must leave files/ and info/ empty')
 LEVEL_NOTE = 'crash = process kill between two system calls; trusted: shim trace completeness for mutating calls'
-RULE = ('scenarios: entry kinds {file, deep dir, symlink->dir} x {1, 3 entries (+ a hand-written entry named n.trashinfo.bak for the purging commands)} x command {restore same volume, restore cross-volume, empty, empty 0, rm *} (+ restore --overwrite, multi-index '
+RULE = ('scenarios: entry kinds {file, deep dir, symlink->dir} x {1, 3 entries (+ a hand-written entry named n.trashinfo.bak for the purging commands)} x command {restore same volume, restore cross-volume, restore --overwrite onto an existing directory, empty, empty 0, empty -i (re-run with -i too), rm *} (+ restore --overwrite, multi-index '
         'restores in thorough); crash before each mutating syscall + after the last; non-trivial = crash state differs from initial state; distinct = (command, kind, count, operation at death)')
-CMDS = ['restore', 'restore-xvol', 'empty', 'empty0', 'rm-star']
+CMDS = ['restore', 'restore-xvol', 'empty', 'empty0', 'rm-star', 'empty-i', 'restore-overwrite-dir']
 TD = scen.HOME_TRASH
 
 
@@ -30,6 +31,8 @@ def scenarios(tier):
     for cmd in CMDS + (['restore-multi', 'restore-overwrite'] if tier == 'thorough' else []):
         for n in (1, 3):
             for k in ('file', 'tree', 'ldir', 'ldang'):
+                if cmd == 'restore-overwrite-dir' and k != 'tree':
+                    continue
                 out.append({'kind': k, 'n': n, 'cmd': cmd})
     return out
 
@@ -56,7 +59,12 @@ def setup(sb, s):
         r = sb.run(argv, cwd=B, env=env, now='2020-01-0%dT00:00:00' % (i + 1))
         if r.exit != 0:
             raise cell.HarnessError('HARNESS-SETUP put failed: %s' % r.err[-300:])
-    if s['cmd'] in ('empty', 'empty0', 'rm-star') and s['n'] == 3:
+    if s['cmd'] == 'restore-overwrite-dir':
+        # a directory already stands at the original location (with a child of its own): --overwrite moves the trashed one INTO it
+        os.makedirs(sb.root + B + '/e0')
+        with open(sb.root + B + '/e0/already-there', 'w') as f:
+            f.write('child of the directory in the way\n')
+    if s['cmd'] in ('empty', 'empty0', 'rm-star', 'empty-i') and s['n'] == 3:
         # one more entry, written the way another implementation would: its name contains '.trashinfo' before the end
         with open(sb.root + TD + '/files/n.trashinfo.bak', 'w') as f:
             f.write('payload of n.trashinfo.bak\n')
@@ -73,10 +81,10 @@ def command(s, ctx):
     env = dict(HOME='/home/u')
     if c.startswith('restore'):
         reply = '0-%d' % (s['n'] - 1) if (c == 'restore-multi' and s['n'] > 1) else '0'
-        argv = ['trash-restore', '--sort', 'date'] + (['--overwrite'] if c == 'restore-overwrite' else []) + ['/']
+        argv = ['trash-restore', '--sort', 'date'] + (['--overwrite'] if c in ('restore-overwrite', 'restore-overwrite-dir') else []) + ['/']
         return {'argv': argv, 'stdin': reply + '\n', 'cwd': '/', 'env': env}
-    argv = {'empty': ['trash-empty'], 'empty0': ['trash-empty', '0'], 'rm-star': ['trash-rm', '*']}[c]
-    return {'argv': argv, 'cwd': '/', 'env': env, 'now': '2024-05-06T07:08:09'}
+    argv = {'empty': ['trash-empty'], 'empty0': ['trash-empty', '0'], 'rm-star': ['trash-rm', '*'], 'empty-i': ['trash-empty', '-i']}[c]
+    return {'argv': argv, 'cwd': '/', 'env': env, 'now': '2024-05-06T07:08:09', 'stdin': 'y\n' if c == 'empty-i' else None}
 
 
 def _orig_snap(ctx):
@@ -102,7 +110,7 @@ def oracle(s, ctx, start, sb, r, at):
             nm = 'e%d' % i
             E = '%s/%s' % (B, nm)
             in_trash = (nm + '.trashinfo') in infos and world.same_entry(start, TD + '/files/' + nm, snap, TD + '/files/' + nm)
-            at_dest = world.same_entry(orig, E, snap, E)
+            at_dest = world.same_entry(orig, E, snap, E) or (s['cmd'] == 'restore-overwrite-dir' and world.same_entry(orig, E, snap, E + '/' + nm))
             if not (in_trash or at_dest):
                 problems.append('restored-entry-complete-nowhere:%s' % nm)
     else:
@@ -120,7 +128,7 @@ def oracle(s, ctx, start, sb, r, at):
             if i2 or p2:
                 problems.append('trash-empty-after-killed-restore-leaves:%s' % (sorted(i2) + sorted(p2))[:3])
         else:
-            r2 = sb.run(kw['argv'], cwd='/', env=env, now=kw.get('now'))
+            r2 = sb.run(kw['argv'], cwd='/', env=env, now=kw.get('now'), stdin=kw.get('stdin'))
             fin = sb.snapshot()
             i2, p2 = world.pairs(fin, TD)
             if i2 or p2:
